@@ -829,6 +829,13 @@ def _embed(outer, inner, use_varargs=True, use_varkwargs=True, depth=1):
     _check_no_dupes(names, i_kwoargs.values())
     e_kwoargs.update(i_kwoargs)
 
+    e_varargs = i_varargs if use_varargs else o_varargs
+    e_varkwargs = i_varkwargs if use_varkwargs else o_varkwargs
+    if e_varargs:
+        _check_no_dupes(names, [e_varargs])
+    if e_varkwargs:
+        _check_no_dupes(names, [e_varkwargs])
+
     o_src = dict(o_src)
     if o_varargs and use_varargs:
         o_src.pop(o_varargs.name, None)
@@ -841,8 +848,8 @@ def _embed(outer, inner, use_varargs=True, use_varkwargs=True, depth=1):
         dict((f, v+depth) for f, v in i_src.get('+depths', {}).items()))
 
     return (
-        e_posargs, e_pokargs, i_varargs if use_varargs else o_varargs,
-        e_kwoargs, i_varkwargs if use_varkwargs else o_varkwargs,
+        e_posargs, e_pokargs, e_varargs,
+        e_kwoargs, e_varkwargs,
         src
         )
 
